@@ -452,6 +452,10 @@ def oracle_case(case, known=(), ceiling=servers.CEILING):
                 armed.add(int(tok[1:]))
             if t in "gaz" and int(tok[1:]) in armed:
                 in_hook.add(int(tok[1:]))      # its entry stays until the hook returns: judged at `h`
+                cl = sess.clients.get(int(tok[1:]))
+                if cl is not None:
+                    # go on only when that hook has been entered (the connection is closed by then: its number is free)
+                    W(lambda: (_hooks(sess).get(cl.peer) or dict(d=0))["d"] >= 1)
                 continue
             if t == "h":
                 in_hook.discard(int(tok[1:]))
@@ -462,6 +466,8 @@ def oracle_case(case, known=(), ceiling=servers.CEILING):
                 if t == "c" and tok.endswith(":b"):
                     if cl is None:
                         continue
+                    if kind == "oneshot" and len(sess.clients) > 1:
+                        continue          # a one-shot server busy with its one client leaves the others in the listen queue
                     if not W(cl.sees_eof):
                         return where + "rejected client %d saw no end-of-stream" % k, "C17:%s:rejected-client-kept" % kind
 
